@@ -1,8 +1,475 @@
 import Pyrtma.Model.Manager
+/-!
+# History-based Spec for the manager properties (C01 C03 C05 C06 C07 C14 C18 C19)
+
+`checkAll cfg rounds obs crash` looks **only** at the externally visible history of one run:
+the inputs (`rounds`: accepts, readiness, frames read, socket failures, clock) and the observation
+(`obs`: every frame written, every failed write, every close, in order, split per round and — through the
+`rd` markers — per frame read).  It never looks at the model's tables.  It replays the history against a small
+abstract state (`AMod`: who is alive, connected, which id / flags / name, which types it subscribed to) that is
+updated by the *meaning* of the control frames as the property statements give it, and reports, per property, the
+first clause that the observation contradicts.
+
+The same function is (1) run by the driver on what the real `MessageManager` did, (2) the subject of the
+theorems `Props/C*.lean` (“every run of the model passes”).
+-/
 namespace Pyrtma.Mgr.Spec
 open Pyrtma.Mgr
 
-def checkAll (_cfg : Cfg) (_rounds : List Round) (_obs : List (List Ev)) (_crash : Option String) :
-    List (String × String) := []
+structure AMod where
+  uid : Nat
+  alive : Bool := true
+  connected : Bool := false
+  modId : Int := 0
+  unique : Bool := true
+  isLogger : Bool := false
+  name : List Nat := []
+  pid : Int := 0
+  subAll : Bool := false
+  types : List Int := []
+deriving Repr, Inhabited
+
+structure A where
+  mods : List AMod := []
+  nAccepted : Nat := 0
+  buf : List Nat := []
+  fail : List (Nat × FailMode) := []
+  w : List Nat := []                     -- the manager's current writable set (stale across idle rounds)
+  pubT : List (Int × Nat) := []          -- client-type frames handled since the last TIMING tick
+  pubR : List (Int × Nat) := []          -- … since the last TRAFFIC tick
+  now : Nat := 0
+  tTiming : Nat := 0
+  tTraffic : Nat := 0
+  tInfo : Nat := 0
+  seq : Nat := 1
+  errs : List (String × String) := []    -- (property, clause) — first failure per property is reported
+deriving Inhabited
+
+def A.err (a : A) (p c : String) : A := { a with errs := a.errs ++ [(p, c)] }
+def A.chk (a : A) (ok : Bool) (p c : String) : A := if ok then a else a.err p c
+def A.get (a : A) (u : Nat) : Option AMod := a.mods.find? (·.uid == u)
+def A.upd (a : A) (u : Nat) (f : AMod → AMod) : A :=
+  { a with mods := a.mods.map (fun m => if m.uid == u then f m else m) }
+def A.failing (a : A) (u : Nat) : Bool := a.fail.any (·.1 == u)
+
+def subscribed (m : AMod) (t : Int) : Bool := m.subAll || m.types.contains t
+
+/-- can the manager hand `m` a frame right now: it is writable, or it is a logger (waited for) -/
+def ready (a : A) (m : AMod) : Bool := a.w.contains m.uid || m.isLogger
+
+def isControl (cfg : Cfg) (t : Int) : Bool :=
+  t == cfg.mtConnect || t == cfg.mtConnectV2 || t == cfg.mtDisconnect || t == cfg.mtSubscribe ||
+  t == cfg.mtUnsubscribe || t == cfg.mtPause || t == cfg.mtResume || t == cfg.mtSetName || t == cfg.mtModuleReady
+
+/-- types the manager itself originates (their counts are not predictable from the client history alone) -/
+def isMgrType (cfg : Cfg) (t : Int) : Bool :=
+  t == cfg.mtAck || t == cfg.mtFailed || t == cfg.mtInfo || t == cfg.mtClosed || t == cfg.mtActive ||
+  t == cfg.mtTraffic || t == cfg.mtTiming || (cfg.mtLog ≤ t && t ≤ cfg.mtLog + 5)
+
+def sends (evs : List Ev) : List (Nat × Nat × Frame) :=
+  evs.filterMap (fun e => match e with | .send u c f => some (u, c, f) | _ => none)
+
+def closes (evs : List Ev) : List Nat := evs.filterMap (fun e => match e with | .close u => some u | _ => none)
+def wfails (evs : List Ev) : List Nat := evs.filterMap (fun e => match e with | .wfail u => some u | _ => none)
+
+def count (l : List Nat) (x : Nat) : Nat := (l.filter (· == x)).length
+
+/-! ### splitting one round's events at the `rd` markers -/
+
+def splitRd : List Ev → List Ev × List (Nat × List Ev)
+  | [] => ([], [])
+  | .rd u :: r =>
+    let (pre, segs) := splitRd r
+    ([], (u, pre) :: segs)
+  | e :: r =>
+    let (pre, segs) := splitRd r
+    (e :: pre, segs)
+
+/-! ### C07 / C03: departures inside one segment -/
+
+/-- every close is justified, every failed write ends in a close, a departed module is described by exactly one
+    CLIENT_CLOSED notice at every observer that can take it -/
+def checkDepartures (cfg : Cfg) (a : A) (mustDepart : Option Nat) (evs : List Ev) : A :=
+  let xs := closes evs
+  let wf := wfails evs
+  let a := match mustDepart with
+    | some u => a.chk (xs.contains u) "C07" s!"module {u} had to be dropped (disconnect / broken frame / refusal) but its connection was not closed"
+    | none => a
+  let a := xs.foldl (fun a v =>
+      a.chk (mustDepart == some v || wf.contains v) "C07" s!"connection {v} closed although it neither left nor failed") a
+  let a := wf.foldl (fun a v =>
+      a.chk (xs.contains v) "C07" s!"write to {v} failed but the module was not removed at once") a
+  let a := a.chk (xs.all (fun v => count xs v == 1)) "C07" "a connection was closed twice"
+  -- CLIENT_CLOSED notices
+  let notices := (sends evs).filterMap (fun (p : Nat × Nat × Frame) => match p.2.2.body with
+      | .closed v .. => some (p.1, v) | _ => none)
+  let a := notices.foldl (fun a (p : Nat × Nat) =>
+      a.chk (xs.contains p.2) "C07" s!"CLIENT_CLOSED about {p.2} although it did not leave") a
+  let observers := a.mods.filter (fun m => m.alive && subscribed m cfg.mtClosed && ready a m && !a.failing m.uid)
+  xs.foldl (fun a v =>
+    observers.foldl (fun a o =>
+      if o.uid == v then a
+      else a.chk ((notices.filter (fun p => p.1 == o.uid && p.2 == v)).length == 1) "C07"
+        s!"observer {o.uid} did not get exactly one CLIENT_CLOSED about {v}") a) a
+
+def applyDepartures (a : A) (evs : List Ev) : A :=
+  (closes evs).foldl (fun a v => a.upd v (fun m => { m with alive := false, connected := false })) a
+
+/-! ### C19: acknowledgements inside one segment -/
+
+def checkAcks (cfg : Cfg) (a : A) (u : Nat) (expect : Bool) (evs : List Ev) : A :=
+  let acks := (sends evs).filter (fun p => p.2.2.body == .ack)
+  let _ := cfg
+  if !expect then a.chk acks.isEmpty "C19" s!"an ACKNOWLEDGE was sent although the frame read from {u} must not be acknowledged"
+  else
+    match a.get u with
+    | none => a
+    | some m =>
+      let a := a.chk (acks.all (fun p => p.2.2.dest == m.modId && p.2.2.src == 0)) "C19"
+        s!"ACKNOWLEDGE not addressed to the sending module id {m.modId}"
+      let toU := (acks.filter (·.1 == u)).length
+      let a :=
+        if a.failing u then a
+        else a.chk (toU == 1 + (if m.isLogger then 1 else 0)) "C19"
+          s!"sender {u} got {toU} ACKNOWLEDGE frames for one control frame"
+      let a := a.mods.foldl (fun a l =>
+          if l.uid == u || !l.alive then a
+          else
+            let n := (acks.filter (·.1 == l.uid)).length
+            if l.isLogger && l.connected then
+              if a.failing l.uid then a else a.chk (n == 1) "C19" s!"logger {l.uid} got {n} copies of the ACKNOWLEDGE"
+            else a.chk (n == 0) "C19" s!"module {l.uid} (not a logger) received an ACKNOWLEDGE meant for {u}") a
+      a
+
+/-! ### C01 / C14: one data frame -/
+
+def destOK (h : Hdr) (m : AMod) : Bool := h.dest == 0 || m.modId == h.dest || m.isLogger
+
+def checkData (cfg : Cfg) (a : A) (h : Hdr) (evs : List Ev) : A :=
+  let t := h.mtype
+  let inRange := !(h.dest < 0 || h.dest > cfg.maxModules || h.destHost < 0 || h.destHost > cfg.maxHosts)
+  let copies := (sends evs).filter (fun p => match p.2.2.body with | .data _ => true | _ => false)
+  let mine := copies.filter (fun p => p.2.2.body == .data h.k)
+  let a := a.chk (copies.length == mine.length) "C01" "a data frame other than the one just read was delivered"
+  let a := a.chk (mine.all (fun p => p.2.2.mtype == t && p.2.2.src == h.src && p.2.2.dest == h.dest &&
+      p.2.2.destHost == h.destHost && (p.2.2.nbytes : Int) == h.nbytes)) "C01" "a delivered copy differs from the published frame"
+  if t == cfg.allTypes then a else
+  let subs := a.mods.filter (fun m => m.alive && subscribed m t)
+  let expected := if inRange then subs.filter (fun m => ready a m && destOK h m && !a.failing m.uid) else []
+  let a := expected.foldl (fun a m =>
+      a.chk ((mine.filter (·.1 == m.uid)).length == 1) "C01"
+        s!"eligible subscriber {m.uid} got {(mine.filter (·.1 == m.uid)).length} copies of frame {h.k} (type {t})") a
+  let a := mine.foldl (fun a p =>
+      a.chk (expected.any (·.uid == p.1)) "C01" s!"module {p.1} received frame {h.k} (type {t}) although it is not an eligible recipient") a
+  -- C14: undeliverable ⇒ FAILED_MESSAGE naming the subscriber, to every FAILED_MESSAGE subscriber that can take it
+  if !inRange || inGuard cfg t then a else
+  -- A subscriber that is not writable is always owed a notice.  A subscriber whose connection fails is owed one when
+  -- the failure is met while *this* frame is being written to it; if it also listens to the manager's own notices
+  -- (CLIENT_CLOSED, FAILED_MESSAGE, RTMA_LOG*, or everything) it may already have been dropped earlier in the same
+  -- delivery while such a notice was written to it, and is then no longer a subscriber when its turn comes.
+  let hearsNotices := fun (m : AMod) => m.subAll || m.types.any (fun ty => ty == cfg.mtClosed || inGuard cfg ty)
+  let undeliv := subs.filter (fun m => (h.dest == 0 || m.modId == h.dest) &&
+      ((!m.isLogger && !a.w.contains m.uid) || (ready a m && a.failing m.uid && !hearsNotices m)))
+  let observers := a.mods.filter (fun m => m.alive && subscribed m cfg.mtFailed && ready a m && !a.failing m.uid)
+  let a := observers.foldl (fun a o =>
+    undeliv.foldl (fun a m =>
+      let want := (undeliv.filter (·.modId == m.modId)).length
+      let got := ((sends evs).filter (fun p => p.1 == o.uid && p.2.2.body == .failed m.modId t h.src h.dest)).length
+      a.chk (got ≥ want) "C14" s!"observer {o.uid} got {got} FAILED_MESSAGE notices about subscriber id {m.modId} for frame {h.k}, expected at least {want}") a) a
+  -- the others are still served: part of C01 above
+  a
+
+/-! ### C06: the connect decision -/
+
+structure Req where
+  v2 : Bool
+  modId : Int
+  unique : Bool
+  isLogger : Bool
+  pid : Int
+  name : Option (List Nat)      -- `none` = not decodable as ascii
+
+def reqOf (cfg : Cfg) (m : AMod) (h : Hdr) (buf : List Nat) : Req :=
+  if h.mtype == cfg.mtConnectV2 then
+    { v2 := true, modId := bufI16 buf 6, unique := bufI16 buf 4 == 0, isLogger := bufI16 buf 0 == 1,
+      pid := bufI32 buf 8, name := cstr buf 12 32 }
+  else { v2 := false, modId := h.src, unique := m.unique, isLogger := bufI16 buf 0 == 1, pid := m.pid, name := some m.name }
+
+/-- refusal the property statement demands -/
+def mustRefuse (cfg : Cfg) (a : A) (u : Nat) (r : Req) (nm : List Nat) : Bool :=
+  r.modId != 0 &&
+  (r.modId < 1 || r.modId > cfg.dynStart ||
+   a.mods.any (fun o => o.alive && o.uid != u && o.connected && o.modId == r.modId && (o.unique || r.unique)) ||
+   a.mods.any (fun o => o.alive && o.uid != u && !nm.isEmpty && o.unique && o.name == nm))
+
+/-- refusal the property statement tolerates (the code also refuses a *unique* newcomer that reuses the name of a
+    non-unique module, and compares with the manager's own entry) -/
+def mayRefuse (cfg : Cfg) (a : A) (u : Nat) (r : Req) (nm : List Nat) : Bool :=
+  mustRefuse cfg a u r nm ||
+  (r.modId != 0 && (nm == "message_manager".toList.map (·.toNat) ||
+    a.mods.any (fun o => o.alive && o.uid != u && !nm.isEmpty && r.unique && o.name == nm)))
+
+def dynFull (cfg : Cfg) (a : A) : Bool :=
+  let used := (a.mods.filter (·.alive)).map (·.modId)
+  (List.range (maxDyn cfg)).all (fun i => used.contains (cfg.dynStart + (i : Int)))
+
+/-- returns the updated abstract state and whether the connect was accepted -/
+def checkConnect (cfg : Cfg) (a : A) (u : Nat) (m : AMod) (h : Hdr) (evs : List Ev) : A × Bool :=
+  let r := reqOf cfg m h a.buf
+  let acks := (sends evs).filter (fun p => p.2.2.body == .ack)
+  let accepted := !acks.isEmpty || ((wfails evs).contains u && !(closes evs).isEmpty &&
+                    !(evs.head? == some (.close u)))
+  -- observed outcome: an ACK (or a failed attempt to write it) means accepted; a close first means refused
+  let observedAccept := !acks.isEmpty || (a.failing u && (evs.find? (fun e => e == .wfail u || e == .close u)) == some (.wfail u))
+  let _ := accepted
+  match r.name with
+  | none => (a.chk (!observedAccept) "C03" "a connect request with a non-ascii name was accepted", false)
+  | some nm =>
+    if r.modId != 0 then
+      let must := mustRefuse cfg a u r nm
+      let may := mayRefuse cfg a u r nm
+      let a := a.chk (!(must && observedAccept)) "C06" s!"connect of {u} with id {r.modId} had to be refused (id out of range / id or name of a unique module in use) but was accepted"
+      let a := a.chk (may || observedAccept) "C06" s!"connect of {u} with id {r.modId} was refused without reason"
+      if observedAccept then
+        (a.upd u (fun m => { m with connected := true, modId := r.modId, unique := r.unique, isLogger := r.isLogger,
+                                     pid := r.pid, name := nm }), true)
+      else (a, false)
+    else
+      if observedAccept then
+        let id := match acks.head? with | some p => p.2.2.dest | none => -1
+        let a :=
+          if acks.isEmpty then a
+          else
+            let a := a.chk (cfg.dynStart ≤ id && id < cfg.maxModules) "C06" s!"dynamic id {id} outside [{cfg.dynStart}, {cfg.maxModules})"
+            a.chk (!(a.mods.any (fun o => o.alive && o.uid != u && o.modId == id))) "C06" s!"dynamic id {id} is already held by a live module"
+        (a.upd u (fun m => { m with connected := true, modId := id, unique := r.unique, isLogger := r.isLogger,
+                                     pid := r.pid, name := nm }), true)
+      else
+        (a.chk (dynFull cfg a) "C06" s!"connect of {u} asking for a dynamic id was refused although ids are free", false)
+
+/-- every CLIENT_INFO frame describes its module as the abstract state has it (options took effect as named) -/
+def checkInfos (a : A) (evs : List Ev) : A :=
+  (sends evs).foldl (fun a p => match p.2.2.body with
+    | .info v pid mid lg uq nm =>
+      match a.get v with
+      | some m =>
+        if !m.connected || m.modId == -1 then a      -- -1: accepted, but the ACK carrying the assigned id could not be written
+        else a.chk (mid == m.modId && lg == m.isLogger && uq == m.unique && nm == m.name && pid == m.pid) "C06"
+          s!"CLIENT_INFO about {v} reports id/logger/unique/name/pid ({mid},{lg},{uq},{pid}) but the module connected with ({m.modId},{m.isLogger},{m.unique},{m.pid})"
+      | none => a
+    | _ => a) a
+
+/-! ### one frame read -/
+
+def ctrBump (c : List (Int × Nat)) (t : Int) : List (Int × Nat) := ctrInc c t
+
+def segment (cfg : Cfg) (a : A) (rd : Read) (evs : List Ev) : A :=
+  let u := rd.uid
+  match a.get u with
+  | none => a.err "C07" s!"the manager read from unknown connection {u}"
+  | some m =>
+  if !m.alive then a.err "C07" s!"the manager read from departed connection {u}" else
+  let h := rd.h
+  let broken := rd.hdrErr || !rd.hdrOk || h.nbytes < 0 || h.nbytes > cfg.bufMax ||
+                (h.nbytes > 0 && (rd.payErr || (rd.avail : Int) < h.nbytes))
+  -- what the payload read leaves in the buffer
+  let a := if rd.hdrErr || !rd.hdrOk || h.nbytes ≤ 0 || h.nbytes > cfg.bufMax || rd.payErr then a
+           else { a with buf := bufWrite a.buf rd.pay (min rd.avail h.nbytes.toNat) }
+  if broken then
+    let a := checkAcks cfg a u false evs
+    applyDepartures (checkDepartures cfg a (some u) evs) evs
+  else
+  let t := h.mtype
+  if t == cfg.mtConnect || t == cfg.mtConnectV2 then
+    if m.connected then
+      let a := checkAcks cfg a u false evs
+      applyDepartures (checkDepartures cfg a none evs) evs
+    else
+      let (a, ok) := checkConnect cfg a u m h evs
+      let a := checkAcks cfg a u ok evs
+      let a := checkDepartures cfg a (if ok then none else some u) evs
+      applyDepartures (checkInfos a evs) evs
+  else if t == cfg.mtDisconnect then
+    let a := checkAcks cfg a u false evs
+    applyDepartures (checkDepartures cfg a (some u) evs) evs
+  else if t == cfg.mtSubscribe || t == cfg.mtResume || t == cfg.mtUnsubscribe || t == cfg.mtPause then
+    let ty := bufI32 a.buf 0
+    let add := t == cfg.mtSubscribe || t == cfg.mtResume
+    let a := a.upd u (fun m =>
+      if ty == cfg.allTypes then (if add then { m with subAll := true, types := [] } else { m with subAll := false, types := [] })
+      else if m.subAll then m
+      else if add then { m with types := if m.types.contains ty then m.types else m.types ++ [ty] }
+      else { m with types := m.types.filter (· != ty) })
+    let a := checkAcks cfg a u true evs
+    applyDepartures (checkDepartures cfg a none evs) evs
+  else if t == cfg.mtSetName then
+    match cstr a.buf 0 32 with
+    | none =>
+      let a := checkAcks cfg a u false evs
+      applyDepartures (checkDepartures cfg a (some u) evs) evs
+    | some nm =>
+      let a := a.upd u (fun m => { m with name := nm })
+      let a := checkAcks cfg a u false evs
+      applyDepartures (checkInfos (checkDepartures cfg a none evs) evs) evs
+  else if t == cfg.mtModuleReady then
+    let a := a.upd u (fun m => { m with pid := bufI32 a.buf 0 })
+    let a := checkAcks cfg a u false evs
+    applyDepartures (checkInfos (checkDepartures cfg a none evs) evs) evs
+  else
+    let a := checkAcks cfg a u false evs
+    let a := checkData cfg a h evs
+    let a := if isMgrType cfg t then a else { a with pubT := ctrBump a.pubT t, pubR := ctrBump a.pubR t }
+    applyDepartures (checkDepartures cfg a none evs) evs
+
+/-! ### the periodic statistics (C18) -/
+
+def checkTiming (cfg : Cfg) (a : A) (evs : List Ev) : A :=
+  (sends evs).foldl (fun a p => match p.2.2.body with
+    | .timing cs ps =>
+      -- client types: exactly the number handled since the previous report (mod 2^16), nothing else
+      let a := a.pubT.foldl (fun a q =>
+          if 0 ≤ q.1 && q.1 < cfg.maxTypes then
+            let want := q.2 % 65536
+            let got := match cs.find? (·.1 == q.1) with | some e => e.2 | none => 0
+            a.chk (got == want) "C18" s!"TIMING_MESSAGE reports {got} messages of type {q.1}, {want} were handled"
+          else a) a
+      let a := cs.foldl (fun a e =>
+          if isMgrType cfg e.1 || isControl cfg e.1 then a
+          else a.chk (a.pubT.any (·.1 == e.1)) "C18" s!"TIMING_MESSAGE attributes {e.2} messages to type {e.1}, none was handled") a
+      -- process ids of connected modules with a non-zero id held by a single module
+      a.mods.foldl (fun a m =>
+        if m.alive && m.connected && m.modId != 0 && m.pid != 0 &&
+           ((a.mods.filter (fun o => o.alive && o.modId == m.modId)).length == 1) then
+          a.chk (ps.contains (m.modId, m.pid)) "C18" s!"TIMING_MESSAGE does not report pid {m.pid} for module id {m.modId}"
+        else a) a
+    | _ => a) a
+
+def checkTraffic (cfg : Cfg) (a : A) (evs : List Ev) : A :=
+  let tr := (sends evs).filterMap (fun p => match p.2.2.body with
+    | .traffic sq sb ts cs => some (p.1, sq, sb, ts, cs) | _ => none)
+  let observers := (tr.map (·.1)).eraseDups
+  observers.foldl (fun a o =>
+    let mine := tr.filter (·.1 == o)
+    let subsOk := (mine.map (·.2.2.1)) == (List.range mine.length).map (· + 1)
+    let a := a.chk subsOk "C18" s!"MESSAGE_TRAFFIC sub_seqno sequence at observer {o} is {mine.map (·.2.2.1)}"
+    let a := a.chk (mine.all (·.2.1 == a.seq)) "C18" s!"MESSAGE_TRAFFIC seqno is not {a.seq} for the whole interval"
+    let entries := mine.flatMap (fun r => (List.zip r.2.2.2.1 r.2.2.2.2).filter (fun e => e.1 != -1))
+    let a := a.chk (mine.all (fun r => r.2.2.2.1.length == cfg.trafficSize && r.2.2.2.2.length == cfg.trafficSize)) "C18"
+      "MESSAGE_TRAFFIC arrays do not have MESSAGE_TRAFFIC_SIZE slots"
+    let tys := entries.map (·.1)
+    let a := a.chk (tys.eraseDups.length == tys.length) "C18" s!"a message type is listed twice in one MESSAGE_TRAFFIC interval: {tys}"
+    let a := (a.pubR.filter (·.1 != -1)).foldl (fun a q =>       -- type -1 is the filler value of the message format
+        let got := (entries.filter (·.1 == q.1)).map (·.2)
+        a.chk (got == [q.2 % 65536]) "C18" s!"MESSAGE_TRAFFIC lists type {q.1} with counts {got}, {q.2} were handled") a
+    entries.foldl (fun a e =>
+        if isMgrType cfg e.1 || isControl cfg e.1 then a
+        else a.chk (a.pubR.any (·.1 == e.1)) "C18" s!"MESSAGE_TRAFFIC attributes {e.2} messages to type {e.1}, none was handled") a) a
+
+/-- the part of a round after the last frame read: periodic messages -/
+def tail (cfg : Cfg) (a : A) (evs : List Ev) : A :=
+  let tick1 := cfg.timing && a.now - a.tTiming > 900
+  let a := if tick1 then checkTiming cfg a evs else a.chk (!(sends evs).any (fun p => match p.2.2.body with | .timing .. => true | _ => false)) "C18" "TIMING_MESSAGE sent before its period elapsed"
+  let a := if tick1 then { a with pubT := [], tTiming := a.now } else a
+  let tick2 := a.now - a.tTraffic > 1000
+  let a := if tick2 then checkTraffic cfg a evs else a
+  let a := if tick2 then { a with pubR := [], tTraffic := a.now, seq := a.seq + 1 } else a
+  let a := if a.now - a.tInfo > 5000 then { a with tInfo := a.now } else a
+  a
+
+/-! ### one round -/
+
+def round (cfg : Cfg) (a : A) (r : Round) (evs : List Ev) : A :=
+  -- a failure mode can only be given to a connection that exists when the round starts
+  let a : A := { a with now := a.now + r.dt,
+                        fail := (r.failSet.filter (·.1 ≤ a.nAccepted)).foldl (fun fl (p : Nat × Option FailMode) => setFail fl p.1 p.2) a.fail }
+  let liveBefore := (a.mods.filter (·.alive)).map (·.uid)
+  let reads := r.reads.filter (fun rd => liveBefore.contains rd.uid)
+  let a := if r.accept then { a with nAccepted := a.nAccepted + 1, mods := a.mods ++ [{ uid := a.nAccepted + 1 }] } else a
+  let live := (a.mods.filter (·.alive)).map (·.uid)
+  let a := if r.accept || !reads.isEmpty then { a with w := if reads.isEmpty then [] else r.writable.filter (live.contains ·) } else a
+  let (pre, segs) := splitRd evs
+  -- `pre`: the accept log; nothing may be closed or acknowledged there
+  let a := a.chk ((closes pre).isEmpty || !(wfails pre).isEmpty) "C07" "a connection was closed before any frame was read in this round"
+  let a := applyDepartures (checkDepartures cfg a none pre) pre
+  -- every frame the script delivers to a live connection is read, in order, unless its connection died earlier in the round
+  let rec go (a : A) (reads : List Read) (segs : List (Nat × List Ev)) (fuel : Nat) : A :=
+    match fuel, reads, segs with
+    | 0, _, _ => a
+    | _, [], [] => a
+    | _, [], (u, _) :: _ => a.err "C03" s!"the manager read from {u} although nothing was pending there"
+    | fuel + 1, rd :: rest, segs =>
+      match a.get rd.uid with
+      | some m =>
+        if !m.alive then go a rest segs fuel      -- `if src:` — removed earlier in this round
+        else match segs with
+          | (u, evs) :: segs' =>
+            if u != rd.uid then a.err "C05" s!"expected the frame from {rd.uid} to be read next, the manager read from {u}"
+            else
+              -- the last segment of the round also contains the periodic messages
+              go (segment cfg a rd evs) rest segs' fuel
+          | [] => a.err "C03" s!"the frame pending on live connection {rd.uid} was never read"
+      | none => go a rest segs fuel
+  let a := go a reads segs (reads.length + segs.length + 1)
+  let lastEvs := match segs.getLast? with | some s => s.2 | none => pre
+  tail cfg a lastEvs
+
+/-! ### whole-history checks (C05) -/
+
+def countsOf (evs : List Ev) (u : Nat) : List Nat :=
+  evs.filterMap (fun e => match e with | .send v c _ => if v == u then some c else none | _ => none)
+
+def dataKs (evs : List Ev) (u : Nat) : List Nat :=
+  evs.filterMap (fun e => match e with
+    | .send v _ f => if v == u then (match f.body with | .data k => some k | _ => none) else none
+    | _ => none)
+
+def isIota (l : List Nat) : Bool := l == (List.range l.length).map (· + 1)
+
+def checkC05 (a : A) (all : List Ev) (senderOf : Nat → Nat) : A :=
+  let uids := ((sends all).map (·.1)).eraseDups
+  let a := uids.foldl (fun a u =>
+      let a := a.chk (isIota (countsOf all u)) "C05" s!"msg_count sequence on connection {u} is {(countsOf all u).take 12} (must be 1,2,3,…)"
+      -- nothing is written to a connection after a write to it failed or it was closed
+      let after := (all.dropWhile (fun e => !(e == .wfail u || e == .close u))).drop 1
+      a.chk (!(sends after).any (·.1 == u)) "C07" s!"frames were written to connection {u} after it failed / was closed") a
+  -- per sender FIFO at each receiver
+  let a := uids.foldl (fun a u =>
+      let ks := dataKs all u
+      let bySender := (ks.map senderOf).eraseDups
+      bySender.foldl (fun a s =>
+        let mine := ks.filter (fun k => senderOf k == s)
+        a.chk (mine.zip (mine.drop 1) |>.all (fun p => p.1 ≤ p.2)) "C05" s!"receiver {u} got the frames of sender {s} out of order: {mine.take 10}") a) a
+  -- consistent relative order between any two receivers
+  uids.foldl (fun a u =>
+    uids.foldl (fun a v =>
+      if u ≥ v then a
+      else
+        let ku := dataKs all u
+        let kv := dataKs all v
+        a.chk (ku.filter (kv.contains ·) == kv.filter (ku.contains ·)) "C05" s!"receivers {u} and {v} saw their common frames in different orders") a) a
+
+/-- C14: a failure to deliver a notice or a log message never produces a further notice -/
+def checkNoNoticeAboutNotices (cfg : Cfg) (a : A) (all : List Ev) : A :=
+  a.chk (!(sends all).any (fun p => match p.2.2.body with | .failed _ t _ _ => inGuard cfg t | _ => false)) "C14"
+    "a FAILED_MESSAGE reports the failed delivery of a FAILED_MESSAGE or RTMA_LOG message"
+
+def props : List String := ["C01", "C03", "C05", "C06", "C07", "C14", "C18", "C19"]
+
+def checkAll (cfg : Cfg) (rounds : List Round) (obs : List (List Ev)) (crash : Option String) : List (String × String) :=
+  let a0 : A := {}
+  let a := match crash with
+    | some w => a0.err "C03" s!"MessageManager.run() was terminated by {w}"
+    | none => a0
+  let a := a.chk (obs.length == rounds.length + 1 || crash.isSome) "C03" "the manager did not play every round of the script"
+  let pairs := List.zip rounds (obs.drop 1)
+  let a := pairs.foldl (fun a p => round cfg a p.1 p.2) a
+  let all := obs.flatten
+  let senderTbl : List (Nat × Nat) := rounds.flatMap (fun r => r.reads.map (fun rd => (rd.h.k, rd.uid)))
+  let senderOf := fun k => match senderTbl.find? (·.1 == k) with | some p => p.2 | none => 0
+  let a := checkC05 a all senderOf
+  let a := checkNoNoticeAboutNotices cfg a all
+  props.map (fun p => match a.errs.find? (·.1 == p) with
+    | some e => (p, "fail " ++ e.2)
+    | none => (p, "ok"))
 
 end Pyrtma.Mgr.Spec
